@@ -150,6 +150,15 @@ def rule_keep_unsynchronized(ctx):
                     allN.add(d_['name'])
         if not (set(factors(backup[2][2])) & allN):
             ctx.report('R09.3', fname + ':extent', where, 'backup covers %s, not all r->N particles of p_jh (variational particles are advanced by the Kepler step too)' % backup[2][2])
+        # the particles handed back are computed from the synchronised copy: every conversion to inertial coordinates reads
+        # p_jh before the restore puts the mid-step state back
+        readers = [c for c in calls if c[1] and ('_to_inertial' in c[1])]
+        anchor(readers, '%s converts the synchronised coordinates to the inertial frame' % fname)
+        for c in readers:
+            n += 1
+            if not (backup[0] < c[0] < restore[0]):
+                ctx.report('R09.3', fname + ':order:' + c[1], where,
+                           '%s at line %s runs after the restore memcpy (line %s): with keep_unsynchronized the particles are filled from the mid-step state again, so the state handed back lacks the closing operators' % (c[1], c[0], restore[0]))
         for c in ops:
             if not (backup[0] < c[0] < restore[0]):
                 ctx.report('R09.3', fname + ':order:' + c[1], where, 'operator %s at line %s is not between the backup (line %s) and the restore (line %s)' % (c[1], c[0], backup[0], restore[0]))
